@@ -9,7 +9,8 @@ EXPLANATION = (
     "`difficulty` field of every PerformanceAttributes built by the four calculators is exactly the attributes the "
     "calculator was constructed with, and nothing writes those attributes in between (R2); the conversions back into "
     "a builder (IntoModePerformance / IntoPerformance / From for MapOrAttrs, 32 impls + 8 enum arms) pass `attrs` resp. "
-    "`attrs.difficulty` through untouched and from_map_or_attrs stores its argument (R3). That the two paths return "
+    "`attrs.difficulty` through untouched, the 12 map-to-builder conversions hand the map over as given (no conversion "
+    "before the mods are known) and from_map_or_attrs stores its argument (R3). That the two paths return "
     "equal numbers is arithmetic plus the caller's obligation to repeat the settings: NOT decided.")
 
 
@@ -153,6 +154,27 @@ def run(ctx):
         ctx.require(maximal == exp and untouched_attrs(rv), 'C04-R3', key, '%s passes %s through unchanged' % (fn.path, 'attrs.difficulty' if want else 'attrs'), fn.where(),
                     bad='%s builds the calculator from %s (expected %s, untouched)' % (fn.path, sorted(maximal), sorted(exp)))
     ctx.floor('C04-R3', n3, 26, 'attribute-to-builder conversions')
+    # map-to-builder conversions: the map reaches the builder as it was given.  The conversion to the builder's mode
+    # depends on the mods (mania key mods) and therefore has to wait for calculate(), where R1 ties it to self.difficulty.
+    n3b = 0
+    for fn in F.fns:
+        tr = fn.impl_trait or ''
+        self_s = (fn.impl_self or {}).get('s', '')
+        in0 = fn.j['inputs'][0]['s'] if fn.j.get('inputs') else ''
+        if fn.name == 'into_performance' and tr.endswith(('IntoModePerformance', 'IntoPerformance')) and self_s.endswith('model::beatmap::Beatmap'):
+            kind = 'into'
+        elif fn.name == 'from' and tr == 'std::convert::From' and 'MapOrAttrs' in self_s and in0.endswith('model::beatmap::Beatmap'):
+            kind = 'from'
+        else:
+            continue
+        ctx.saw(fn)
+        n3b += 1
+        rv = prov.prov_of(fn).return_value()
+        why = map_passthrough(rv)
+        ctx.require(why is None, 'C04-R3', 'map-%s:%s' % (kind, fn.path), '%s hands the map to the builder as given' % fn.path, fn.where(),
+                    bad='%s does not hand the map over as given (%s): a map altered or converted before the settings are known makes the '
+                        'map path disagree with the attribute path computed with those settings' % (fn.path, why))
+    ctx.floor('C04-R3', n3b, 12, 'map-to-builder conversions')
     for mode in MODES:
         f = F.method(perf(mode), 'from_map_or_attrs', inherent_only=True)
         if f is None:
@@ -163,6 +185,32 @@ def run(ctx):
         ctx.require(as_param_path(m, through_calls=False) == (1, ()), 'C04-R3', '%s:from_map_or_attrs' % mode, 'stores its argument as map_or_attrs', f.where(),
                     bad='%s stores `%s`' % (f.path, prov.show(m, maxdepth=3)))
     ctx.not_decided('numerical equality of the result started from attributes and the result started from the map')
+
+
+PASS_CALLS = {'into', 'from', 'into_performance', 'from_map_or_attrs'}
+
+
+def map_passthrough(v, depth=0):
+    """None when `v` is parameter 1 wrapped only in identity conversions / enum constructors; else a description"""
+    if depth > 12:
+        return 'too deep'
+    k = v[0]
+    if k == 'param':
+        return None if v[1] == 1 else 'parameter %d' % v[1]
+    if k == 'phi':
+        for a in v[1]:
+            w = map_passthrough(a, depth + 1)
+            if w:
+                return w
+        return None
+    if k == 'call' and v[1].get('name') in PASS_CALLS and len(v[2]) == 1:
+        return map_passthrough(v[2][0], depth + 1)
+    if k == 'agg' and v[1] == 'adt' and len(v[4]) == 1:
+        return map_passthrough(list(v[4].values())[0], depth + 1)
+    if k == 'mut':
+        vias = sorted({x[1].get('name') or '?' for x in v[2] if x[0] == 'callref'})
+        return 'the map is mutably borrowed by %s first' % (', '.join(vias) or 'a write')
+    return 'value is `%s`' % prov.show(v, maxdepth=3)[:160]
 
 
 def untouched_attrs(v):
